@@ -132,7 +132,7 @@ class ParserReset(Contract):
 REG.transparent('lomond.parser.Parser.__init__', 'lomond.frame_parser.FrameParser.__init__', 'lomond.stream.WebsocketStream.__init__')
 
 
-@contract('lomond.websocket.WebSocket.State.__init__', serves=['C17', 'C10'])
+@contract('lomond.websocket.WebSocket.State.__init__', serves=['C17', 'C10', 'C01', 'C04', 'C05'])
 class StateInit(Contract):
     inline_at_calls = True
     """every per-connection field starts from its initial value: new stream with a new parser
@@ -179,10 +179,10 @@ class StateInit(Contract):
                 out.append(('parser:empty-buffer-not-eof-not-in-text-no-compression-plain-frames-headers-expected',
                             BoolVal(isinstance(buf, MRef) and buf.ident not in old.mem and st.mem[buf.ident].concrete_len() == 0 and pf.get('_eof') is False
                                     and pf.get('_is_text') is False and pf.get('_compression') is False and pf.get('_frame_class') is Frame
-                                    and pf.get('parse_headers') is True and pf.get('validate') is True), ('C17',)))
+                                    and pf.get('parse_headers') is True and pf.get('validate') is True), ('C17', 'C10', 'C04', 'C01', 'C05')))
                 out.append(('parser:new-coroutine-at-its-first-request', BoolVal(p in st.ghost.get('new_coroutines', [])), ('C17',)))
                 ok_v = isinstance(val, ORef) and val.oid not in old.heap
-                out.append(('parser:new-validator-in-ACCEPT', BoolVal(False) if not ok_v else iv(st.obj(val).f.get('_state')) == 0, ('C17', 'C05')))
+                out.append(('parser:new-validator-in-ACCEPT', BoolVal(False) if not ok_v else iv(st.obj(val).f.get('_state')) == 0, ('C17', 'C05', 'C01', 'C04')))
         return out
 
 
